@@ -6,7 +6,8 @@
    XML parsing (entity handling) and schema validation are not modelled: they appear as the stage
    outcome [p_parse]; that part of the property is judged on the implementation only. *)
 From Coq Require Import List NArith Bool Lia.
-From SDC Require Import Http.Chunk Http.Chunk_Proofs Http.Dispatch Http.Dispatch_Proofs Http.Gen_Params.
+From SDC Require Import Http.Chunk Http.Chunk_Proofs Http.Dispatch Http.Dispatch_Proofs Http.Connection
+     Http.Connection_Proofs Http.Gen_Params.
 Import ListNotations.
 Open Scope N_scope.
 
@@ -98,6 +99,53 @@ Theorem C13_get_escapes_as_found :
   exists i, i_component i <> Propagates /\ handle_get_found i = Propagates.
 Proof. exact handle_get_found_propagates. Qed.
 Print Assumptions C13_get_escapes_as_found.
+
+(* (iii) the request loop of a kept-alive connection.  The stream holds the body bytes of the requests one
+   behind the other (request lines and header blocks are http.server's business).  If every body is framed
+   as its own headers announce, then - WHATEVER the outcome of each request: unknown path, missing dispatcher,
+   unsupported or corrupt coding, handler fault - the answers are exactly those of every request served on
+   its own body alone, up to the first request that closes the connection: no byte of a request's body is
+   ever treated as (part of) another request.  Model = code with fixes/C13_get_body_unread.diff. *)
+Theorem C13_connection_aligned : forall rs ws tail,
+  Forall2 (fun r w => framed hdr_max (c_hdr r) w) rs ws ->
+  fst (run_conn (step hdr_max available_encodings) rs (uncapped (concat ws ++ tail)))
+  = serve_isolated hdr_max available_encodings rs ws.
+Proof. exact (conn_aligned hdr_max available_encodings ltac:(unfold hdr_max; lia)). Qed.
+Print Assumptions C13_connection_aligned.
+
+(* one request: same answer and close decision as on its own body alone, and if the connection stays open the
+   stream stands exactly behind this request's body *)
+Theorem C13_request_consumes_its_body : forall r w rest,
+  framed hdr_max (c_hdr r) w ->
+  exists a c s1 s0,
+    step hdr_max available_encodings r (uncapped (w ++ rest)) = (a, s1, c) /\
+    step hdr_max available_encodings r (uncapped w) = (a, s0, c) /\
+    (c = false -> s1 = uncapped rest).
+Proof. exact (fun r w rest => step_framed hdr_max available_encodings r w rest ltac:(unfold hdr_max; lia)). Qed.
+Print Assumptions C13_request_consumes_its_body.
+
+Theorem C13_connection_consumes_exactly : forall rs ws tail,
+  Forall2 (fun r w => framed hdr_max (c_hdr r) w) rs ws ->
+  Forall (fun rw => snd (step hdr_max available_encodings (fst rw) (uncapped (snd rw))) = false) (combine rs ws) ->
+  snd (run_conn (step hdr_max available_encodings) rs (uncapped (concat ws ++ tail))) = uncapped tail.
+Proof. exact (conn_consumes_exactly hdr_max available_encodings ltac:(unfold hdr_max; lia)). Qed.
+Print Assumptions C13_connection_consumes_exactly.
+
+(* a do_POST that reads the body only after the path lookup, and do_GET as found (body ignored, connection
+   kept): the body of an answered request stays in front of the next request *)
+Theorem C13_lazy_body_read_refuted :
+  exists r w rest,
+    framed hdr_max (c_hdr r) w /\ w <> [] /\
+    step_lazy hdr_max available_encodings r (uncapped (w ++ rest)) = (Answer 404 KEmpty, uncapped (w ++ rest), false).
+Proof. exact (step_lazy_misaligned hdr_max available_encodings). Qed.
+Print Assumptions C13_lazy_body_read_refuted.
+
+Theorem C13_get_body_as_found_refuted :
+  exists r w rest a,
+    framed hdr_max (c_hdr r) w /\ w <> [] /\
+    step_get_found hdr_max available_encodings r (uncapped (w ++ rest)) = (a, uncapped (w ++ rest), false).
+Proof. exact (step_get_found_misaligned hdr_max available_encodings). Qed.
+Print Assumptions C13_get_body_as_found_refuted.
 
 (* non-trivial instances: a body cut inside a chunk is a clean error within the fuel bound, with the
    as-found loop it is not; a schema-invalid message (parse = HTTP error 400) on a known path is
